@@ -12,7 +12,8 @@
 From Coq Require Import ZArith List.
 Require Import Bits.Lib.Result Bits.Lib.Bytes Bits.Lib.PyStr Bits.Lib.CompactSize.
 Require Import Bits.Spec.Opcodes Bits.Spec.Script Bits.Spec.ScriptTemplates Bits.Model.Script Bits.Model.Witness.
-Require Import Bits.Proofs.Script Bits.Proofs.ScriptBuilders Bits.Proofs.ScriptWitness.
+Require Import Bits.Model.ScriptWitnessParse.
+Require Import Bits.Proofs.Script Bits.Proofs.ScriptBuilders Bits.Proofs.ScriptWitness Bits.Proofs.ScriptWitnessParse.
 Import ListNotations.
 Local Open Scope Z_scope.
 
@@ -66,6 +67,23 @@ Theorem C13_witness_ser_ok_iff : forall items, (exists ser, witness_ser items = 
   Z.of_nat (length items) < 2 ^ 64 /\ Forall (fun d => Z.of_nat (length d) < 2 ^ 64) items.
 Proof. exact Bits.Proofs.Witness.witness_ser_ok_iff. Qed.
 Print Assumptions C13_witness_ser_ok_iff.
+
+(* decode_script(witness=True, parse=True): the raw stack split off a byte stream is exactly the CompactSize
+   serialisation of the stack, and the rest of the stream is returned untouched - every stack the encoder accepts
+   (any item count, item lengths below 2^64), every trailing byte string *)
+Theorem C13_witness_parse_raw : forall items ser, witness_ser items = Ok ser ->
+  forall rest, witness_parse (ser ++ rest) = Ok (ser, rest).
+Proof. exact witness_parse_roundtrip. Qed.
+Print Assumptions C13_witness_parse_raw.
+
+(* on EVERY input the parse mode refuses exactly when the decoding mode refuses and leaves the same remaining bytes *)
+Theorem C13_witness_parse_agrees_with_decode : forall bs, same_outcome (witness_parse bs) (witness_deser bs).
+Proof. exact witness_parse_agrees_with_deser. Qed.
+Print Assumptions C13_witness_parse_agrees_with_decode.
+
+Theorem C13_witness_parse_terminates : forall bs, witness_parse bs <> Err FuelE.
+Proof. exact witness_parse_no_fuel. Qed.
+Print Assumptions C13_witness_parse_terminates.
 
 (* ---- template builders: scriptPubKeys ---- *)
 (* hand-written one-byte lengths: correct for every argument of 1..75 bytes (keys 33/65, hashes 20/32) *)
@@ -260,4 +278,12 @@ Example C13_ex_witness :
   witness_ser [[]; [xaa; xbb]] = Ok [x02; x00; x02; xaa; xbb]
   /\ witness_deser [x02; x00; x02; xaa; xbb; xff] = Ok ([[]; [xaa; xbb]], [xff])
   /\ witness_ser [] = Ok [x00].
+Proof. vm_compute. repeat split. Qed.
+
+Example C13_ex_witness_parse :
+  witness_parse [x02; x00; x02; xaa; xbb; xff; xee] = Ok ([x02; x00; x02; xaa; xbb], [xff; xee])
+  /\ witness_parse [x00; x07] = Ok ([x00], [x07])
+  /\ witness_parse [xfd; x01; x00; xfd; x01; x00; xaa] = Ok ([x01; xfd; x01; x00; xaa], [])   (* count re-encoded, item prefix kept *)
+  /\ witness_parse [x02; x01; xaa] = Err ValueE                                               (* stack cut short *)
+  /\ witness_parse [] = Err IndexE.
 Proof. vm_compute. repeat split. Qed.
